@@ -473,7 +473,11 @@ class Transformer(ast.NodeTransformer):
                                                  comparators=[_attr("_vc_.UNBOUND")]),
                                 body=[ast.Delete(targets=[ast.Name(id=v, ctx=ast.Del())])], orelse=[]))
         stmts.append(ast.Expr(value=_call(f"{L}.assume_inv", [_call("locals", [])])))
-        if test is not None:
+        if test is not None and any(isinstance(x, ast.NamedExpr) for x in ast.walk(test)):
+            # a walrus in the loop test binds in the function scope: evaluate the test in place, not inside a lambda
+            stmts.append(ast.Assign(targets=[ast.Name(id="_vc_tv", ctx=ast.Store())], value=test))
+            take_arg = ast.Lambda(args=_args([]), body=ast.Name(id="_vc_tv", ctx=ast.Load()))
+        elif test is not None:
             take_arg = ast.Lambda(args=_args([]), body=test)
         else:
             take_arg = ast.Constant(value=None)
